@@ -270,6 +270,7 @@ class Thread:
         self.name = name or _name("Thread")
         self.daemon = bool(daemon)
         self._st = None
+        self._started = False
         self.ident = None
 
     def __repr__(self):
@@ -289,17 +290,27 @@ class Thread:
             sim.log("thread-start-failed", self.name)
             sim.probe("thread-start-failed")
             raise RuntimeError("can't start new thread")
-        st = sim.spawn(self.run, name=self.name)
+        st = sim.spawn(self._boot, name=self.name)
         st.handle = self
         self._st = st
-        self.ident = st.tid + 1000
-        # CPython's Thread.start() now waits until the new thread has reported in (`self._started.wait()`): a signal
-        # that arrives during this wait raises in the caller although the thread exists and runs
+        # As CPython's Thread.start(): wait until the new thread has reported in (`self._started.wait()`). Until it
+        # has, the thread exists but is_alive() is False, ident is None and join() raises - and a signal that arrives
+        # during this wait raises in the caller although the thread exists (and may already be running)
         sim.op_enter(("thread-start-wait", self.name))
+        if not self._started:
+            sim.block(lambda: self._started, None, what=("thread-start-wait", self.name))
+
+    def _boot(self):
+        sim = _sim()
+        self.ident = self._st.tid + 1000 if self._st is not None else sim.current.tid + 1000
+        self._started = True
+        sim.log("thread-boot", sim.current.tid, self.name)
+        sim.strategy_after_effect()
+        self.run()
 
     def join(self, timeout=None):
         sim = _sim()
-        if self._st is None:
+        if self._st is None or not self._started:
             raise RuntimeError("cannot join thread before it is started")
         if self._st is sim.current:
             raise RuntimeError("cannot join current thread")
@@ -309,7 +320,7 @@ class Thread:
         sim.block(lambda: st.state == DONE, deadline, what=("join", self.name))
 
     def is_alive(self):
-        return self._st is not None and self._st.state != DONE
+        return self._st is not None and self._started and self._st.state != DONE
 
     @property
     def native_id(self):
